@@ -349,10 +349,14 @@ class LibMap:
                 return o
             if name == "store":
                 return "%s = %s" % (em.paren(o), em.E(args[0]))
-            if name == "fetch_add":
-                return "vf_fetch_add_%s(&%s, %s)" % (ident(ct), em.paren(o), em.E(args[0]))
-            if name == "fetch_sub":
-                return "vf_fetch_add_%s(&%s, -(%s))" % (ident(ct), em.paren(o), em.E(args[0]))
+            if name in ("fetch_add", "fetch_sub"):
+                # std::atomic<T>::fetch_add: an assumed callee `T vf_fetch_add_T(T* p, T v)` (the spec gives it a contract
+                # or a body: plain `old = *p; *p += v; return old;` or an interference-tolerant model); memory order dropped
+                fa = "vf_fetch_add_%s" % ident(ct)
+                em.note_proto(fa, ct, [ct + "*", ct], "std::atomic<%s>::fetch_add (memory order dropped)" % ct)
+                em.callees.setdefault(fa, "std::atomic<%s>::fetch_add" % ct)
+                av = em.E(args[0])
+                return "%s(&%s, %s)" % (fa, em.paren(o), av if name == "fetch_add" else "-(%s)" % av)
             if name == "swap":
                 return None
             if name in ("operator int", "operator long", "operator unsigned long", "operator __int_type",
@@ -525,6 +529,12 @@ class LibMap:
 
     # ------------------------------------------------------------------ free functions
     def free_call(self, em, n, name, args, fnt):
+        if name == "yield" and not args and fnt and fnt.replace(" ", "") == "void()noexcept":
+            # std::this_thread::yield(): an interference point of a thread (the spec gives the callee vf_thread_yield a
+            # contract saying what the other threads may write meanwhile); it cannot throw: no exception check follows
+            em.note_proto("vf_thread_yield", "void", [], "std::this_thread::yield")
+            em.callees.setdefault("vf_thread_yield", "std::this_thread::yield (interference point, noexcept)")
+            return "vf_thread_yield()"
         if name in ("min", "max") and not args and fnt and "mersenne_twister_engine<" in fnt:
             m = re.search(r"mersenne_twister_engine<[^,]+,\s*(\d+)", fnt)
             w = int(m.group(1))
@@ -795,8 +805,8 @@ class LibMap:
                 return "((%s){0})" % ct
             if self.mapped(em, args[0]) == ct:
                 return em.E(args[0])
-            if "nullopt_t" in (qt(args[0]) or ""):
-                return "((%s){0})" % ct  # optional(std::nullopt), possibly through a copy of the nullopt_t object
+            if "nullopt_t" in (qt(args[0]) or "") or re.search(r"\bnone_t\b", qt(args[0]) or ""):
+                return "((%s){0})" % ct  # optional(std::nullopt / boost::none), possibly through a copy of the tag object
             if skip(args[0]).get("kind") == "DeclRefExpr" and \
                     skip(args[0])["referencedDecl"].get("name") == "nullopt":
                 return "((%s){0})" % ct
